@@ -1,6 +1,6 @@
 (* C05/C06 model driver.  One case per line:
      KN <which> <order> <interp 0|1> <prune t1,t2,..|-> <limit id,id,..|-|none> <fallback n/d,n/d,n/d|-> <corpus>
-   which  = S (kn_spec) | I (kn_impl, repaired) | B1 (final flush passes the actual count: F1) | B2 (</s> prunable: F12)
+   which  = S (kn_spec) | I (kn_impl, repaired) | B1 (final flush passes the actual count: F1) | B2 (</s> prunable: F12L)
    corpus = sentences separated by '|', word ids (hex) separated by ',' ; an empty sentence is the empty string; "." = no sentences.
    Answer: REFUSED <order>   or
            BUILT <counts ,> ; <discounts: n/d:n/d:n/d ,> ; <order 1 entries> ; <order 2 entries> ...
